@@ -316,6 +316,10 @@ pub fn soft_violation(v: Violation) {
     });
 }
 
+pub fn soft_count() -> usize {
+    with(|c| c.soft.len())
+}
+
 /// Set a human-readable sample of what this run did (kept for a few runs in evidence).
 pub fn set_sample(f: impl FnOnce() -> String) {
     let s = f();
